@@ -173,7 +173,14 @@ func (thisListener *GruleV3ParserListener) ExitRuleEntry(ctx *grulev3.RuleEntryC
 	}
 	if ctx.RuleDescription() != nil {
 		txt := ctx.RuleDescription().GetText()
-		entry.RuleDescription = txt[1 : len(txt)-1]
+		// the description is a string literal like any other: escape sequences denote the escaped character
+		// (the JSON rule translator writes descriptions with strconv.Quote). Text that is not a valid
+		// escaped string is kept as it is written.
+		if dec, err := unquoteString(txt); err == nil {
+			entry.RuleDescription = dec
+		} else {
+			entry.RuleDescription = txt[1 : len(txt)-1]
+		}
 	}
 
 	entryReceiver, popOk := thisListener.Stack.Peek().(ast.RuleEntryReceiver)
